@@ -175,6 +175,23 @@ def _check_not_null_cut(R, exf):
             ok_all = False
             R.violation("C06.admit", "extract|null-test-source", "the NULL test in extract() is not applied to the column's extracted value",
                         [c.loc()])
+    # every row extract() returns is the vector filled by the tested loop (or an empty one): no path builds a row around the test
+    rows = [(c.args[0], c.loc()) for c in PR.calls_matching(exf, r"^sqlgrep::data_model::Row::new$")]
+    for i, st in exf.stmts():
+        if st["k"] == "assign" and st["rv"]["k"] == "aggr" and (st["rv"].get("adt") or "").endswith("data_model::Row") and st["rv"]["ops"]:
+            rows.append((st["rv"]["ops"][0], "%s:%d" % (exf.file, st["line"])))
+    for rop, rloc in rows:
+        os_ = F.origins(exf, rop, depth=8, through_calls=False)
+        fresh = [o for o in os_ if o.kind == "call" and re.search(r"^alloc::vec::Vec::(new|with_capacity)$", short(o.call.name))]
+        other = [o for o in os_ if o not in fresh]
+        if other or not fresh:
+            ok_all = False
+            what = short(other[0].call.name) if other and other[0].kind == "call" else (other[0].kind if other else "nothing")
+            R.violation("C06.admit", "extract|row-around-test", "extract() returns a row built from %s, not the vector filled under the NOT NULL "
+                                                                "test: a line can be admitted with a NULL in a NOT NULL column" % what, [rloc])
+    if not rows:
+        ok_all = False
+        R.violation("C06.admit", "extract|no-row", "extract() no longer builds its result with Row::new", [exf.loc()])
     if ok_all:
         R.ok("C06.admit", "extract|not-null-cut", "NULL in a NOT NULL column clears the row on every path; test applied to the extracted (defaulted) value",
              exf.loc(sws[0]))
